@@ -93,4 +93,9 @@ example : ¬ ND (.obj [("a", .obj [("x", .null), ("x", .null)])]) := by
 theorem side_parts_disjoint : Side.partsDisjoint Gen.kinds = true := by decide
 theorem side_parts_paired : Side.partsPaired Gen.kinds = true := by decide
 
+/-- model-level test (a test, not a theorem): a tuple with no position is still written as a tuple — the input class
+behind seed C06k and fix 21bfdbf -/
+example : norm "schema" (.obj [("type", .str "array"), ("items", .arr []), ("additionalItems", .bool false)])
+    = .ok (.obj [("type", .str "array"), ("items", .arr []), ("additionalItems", .bool false)]) := by rfl
+
 end SpecModel.Props.C06
